@@ -415,6 +415,25 @@ fn run_inner(line: &str) -> String {
             }
             op_conv(t[1])
         }
+        "fromchar" => {
+            // `from_char` of the base types on an arbitrary Unicode scalar value
+            if t.len() != 3 {
+                return BADARG.to_string();
+            }
+            let cp: u32 = tryo!(t[2].parse().ok());
+            let ch = tryo!(char::from_u32(cp));
+            let r: Option<usize> = match t[1] {
+                "file" => File::from_char(ch).map(|x| x.index()),
+                "rank" => Rank::from_char(ch).map(|x| x.index()),
+                "cell" => Cell::from_char(ch).map(|x| x.index()),
+                "color" => Color::from_char(ch).map(|x| x as u8 as usize),
+                _ => return BADARG.to_string(),
+            };
+            match r {
+                Some(i) => i.to_string(),
+                None => "none".to_string(),
+            }
+        }
         "chain" => chainops::run_chain(line),
         "perft" => {
             if t.len() != 8 {
